@@ -1,7 +1,8 @@
 """C14 — metadata property values round trip with type, order, unit and uncertainty."""
 from vlib.tok import f64, lst, s as S
 ID = 'C14'
-THEOREMS = ['Nix.C14.values_roundtrip', 'Nix.C14.replace_changes_count', 'Nix.C14.clear_empty', 'Nix.C14.mixed_type_rejected',
+LEAN_MODULES = ['NixModel.Props.C14', 'NixModel.Props.C02Fields', 'NixModel.Gen.Fields']
+THEOREMS = ['Nix.Fields.accessor_overloads_name_one_field', 'Nix.Fields.every_written_field_is_read', 'Nix.Fields.every_read_field_is_written', 'Nix.Fields.reset_removes_what_the_setter_writes', 'Nix.Fields.getter_has_a_setter', 'Nix.Fields.model_field_names', 'Nix.C14.values_roundtrip', 'Nix.C14.replace_changes_count', 'Nix.C14.clear_empty', 'Nix.C14.mixed_type_rejected',
             'Nix.C14.assign_accepted_iff', 'Nix.C14.rejected_assign_leaves_no_trace', 'Nix.C14.assign_keeps_attributes',
             'Nix.C14.unit_roundtrip', 'Nix.C14.unit_reread_stable', 'Nix.C14.definition_roundtrip',
             'Nix.C14.rejected_call_leaves_no_trace', 'Nix.C14.step_frame', 'Nix.C14.reopen_preserves', 'Nix.C14.readonly_changes_nothing',
